@@ -495,12 +495,12 @@ pub fn run_c14(run: &Run) {
     run.set_rule("states = ADF objects (native and bridged) of the named families, fresh and after every sequence of public calls up to the stated length (the 15-call alphabet of C11, so exports happen after the node table has grown); in each state both round trips are executed: serde JSON export/import + fix_import, and the string-encoded node list + ordering + root handles exactly as the web service's database layer stores them, rebuilt through Bdd::from(nodes) and Adf::from(..). Node table, roots and ordering must be identical; the re-imported store must satisfy the canonicity, memo and query invariants; every semantics answer of the re-imported object must equal the definition. CLI: --export then --import with each semantics flag on A(2); existing file / symlink / directory targets are never modified and the run still succeeds, also when the target appears while the CLI is blocked reading its input (the input is a FIFO fed by the harness). Objects whose shared dictionary grew after construction (a second parser on the same VarContainer) are exported too. Non-trivial: states reached by >= 1 call.");
     run.assume("call histories up to length 2 before the export; ADFs with <= 3 statements");
     let quick = run.quick();
-    // quick: one residue class modulo 2 of F(3,2) (selected by the seed); thorough: all of it
+    // quick: one residue class modulo 4 of F(3,2) (selected by the seed); thorough: all of it
     let f32 = if quick {
         let mut f = fam_f(3, 2);
-        f.first = run.seed % 2;
-        f.step = 2;
-        f.name = format!("F(3,2) class {} mod 2", run.seed % 2);
+        f.first = run.seed % 4;
+        f.step = 4;
+        f.name = format!("F(3,2) class {} mod 4", run.seed % 4);
         Source::FamCompact(f)
     } else {
         Source::Fam(fam_f(3, 2))
